@@ -351,7 +351,7 @@ def r7_move_list(ctx):
     leave the king attacked (= C01.R1 / R2; a pre-filter that drops a real evasion turns a check into a mate)"""
     from . import c01
     import_rules(ctx, 'C06.R7-legal-move-list', [c01.r1_filter_dominance, c01.r2_filter_shape, c01.r3_castle_guards, c01.r4_pawn_geometry,
-                                                 c01.r4b_pawn_captures, c01.r7_promotions, c01.r8_captures],
+                                                 c01.r4b_pawn_captures, c01.r7_promotions, c01.r8_captures, c01.r9_position_invariants],
                  'a legality filter that discards (or keeps) a move without simulating it makes "no legal move" - and with it checkmate, '
                  'stalemate and the # annotation - wrong in the positions where that move is the only evasion', floor=6)
 
